@@ -267,7 +267,18 @@ fn gv_none(engine0: &Engine, corpus: &Corpus, evs: &mut Vec<Value>) -> Result<()
         engine.condition.set_gv_weight(s, 0.37);
     }
     let b = trajectories(&engine, &sil)?;
-    evs.push(json!({"ev": "gvnone", "equal_to_ml": digest2(&a.0) == digest2(&b.0) && digest2(&a.1) == digest2(&b.1) && digest2(&a.2) == digest2(&b.2)}));
+    // the plain maximum-likelihood solution itself, through the public MlpgAdjust with the GV parameters taken away
+    let labels = parse_all(&sil);
+    let dur = durations(&engine, &labels);
+    let m = Models::new(&labels, &engine.voices, engine.condition.get_interporation_weight());
+    let mut ml_equal = true;
+    for (s, got) in [&b.0, &b.1, &b.2].iter().enumerate().take(engine.voices.global_metadata().num_streams) {
+        let mut ms = m.model_stream(s);
+        ms.gv = None;
+        let ml = jbonsai::mlpg_adjust::MlpgAdjust::new(engine.condition.get_gv_weight(s), engine.condition.get_msd_threshold(s), ms).create(&dur);
+        ml_equal &= digest2(&ml) == digest2(got) && ml.iter().all(|f| f.iter().all(|x| x.is_finite()));
+    }
+    evs.push(json!({"ev": "gvnone", "equal_to_ml": ml_equal && digest2(&a.0) == digest2(&b.0) && digest2(&a.1) == digest2(&b.1) && digest2(&a.2) == digest2(&b.2)}));
     Ok(())
 }
 
